@@ -40,6 +40,8 @@ pub struct Ice {
     /// only the protocol event loops (the first tasks litep2p spawns) are held: connection tasks and the
     /// manager keep running, so network outcomes pile up ready for the protocol's next poll
     frozen_proto: AtomicBool,
+    /// only the application loop (Litep2p::next_event, i.e. the TransportManager) is held
+    frozen_mgr: AtomicBool,
     parked: Mutex<Vec<std::task::Waker>>,
 }
 
@@ -53,8 +55,17 @@ impl NodeExec {
             dead: AtomicBool::new(false),
             log,
             node,
-            ice: Arc::new(Ice { frozen: AtomicBool::new(false), frozen_proto: AtomicBool::new(false), parked: Mutex::new(Vec::new()) }),
+            ice: Arc::new(Ice { frozen: AtomicBool::new(false), frozen_proto: AtomicBool::new(false), frozen_mgr: AtomicBool::new(false), parked: Mutex::new(Vec::new()) }),
         })
+    }
+
+    pub fn freeze_mgr(&self, on: bool) {
+        self.ice.frozen_mgr.store(on, Ordering::SeqCst);
+        if !on {
+            for w in self.ice.parked.lock().unwrap().drain(..) {
+                w.wake();
+            }
+        }
     }
 
     pub fn freeze_proto(&self, on: bool) {
@@ -93,6 +104,7 @@ impl NodeExec {
             // Litep2p::new starts the protocol event loops before anything else; the harness configures exactly
             // one protocol (request-response) per node
             proto: id == 0 && what == "litep2p",
+            mgr: what == "manager",
         };
         let h = tokio::spawn(w);
         let mut g = self.handles.lock().unwrap();
@@ -131,16 +143,21 @@ pub struct Perturb {
     what: &'static str,
     ice: Arc<Ice>,
     proto: bool,
+    mgr: bool,
 }
 
 impl Future for Perturb {
     type Output = ();
     fn poll(mut self: Pin<&mut Self>, cx: &mut Context<'_>) -> Poll<()> {
         let this = &mut *self;
-        let held = |ice: &Ice, proto: bool| ice.frozen.load(Ordering::SeqCst) || (proto && ice.frozen_proto.load(Ordering::SeqCst));
-        if held(&this.ice, this.proto) {
+        let held = |ice: &Ice, proto: bool, mgr: bool| {
+            ice.frozen.load(Ordering::SeqCst)
+                || (proto && ice.frozen_proto.load(Ordering::SeqCst))
+                || (mgr && ice.frozen_mgr.load(Ordering::SeqCst))
+        };
+        if held(&this.ice, this.proto, this.mgr) {
             let mut g = this.ice.parked.lock().unwrap();
-            if held(&this.ice, this.proto) {
+            if held(&this.ice, this.proto, this.mgr) {
                 g.push(cx.waker().clone());
                 return Poll::Pending;
             }
